@@ -202,7 +202,8 @@ def driver_line(env, case, real):
         d = case["dst"]
         nx = dict((k, v) for k, v in st["next"])[d]
         return {"op": "send", "B": case["conf"]["batch"], "term": st["term"], "commit": st["commit"], "log": js["log"],
-                "next": nx, "snap": case.get("snap", []), "budget": case.get("budget"), "drop": case.get("drop")}
+                "next": nx, "snap": case.get("snap", []), "budget": case.get("budget"), "drop": case.get("drop"),
+                "match": dict((k, v) for k, v in st["match"]).get(d)}
     if op == "sendall":
         # iteration order of the real set union (only matters when a budget is shared between destinations)
         order = real["extra"].get("order", [])
@@ -306,7 +307,8 @@ def wellformed_send(case):
     if idxs != list(range(idxs[0], idxs[0] + len(idxs))):
         return False
     nx = dict((k, v) for k, v in st["next"]).get(case["dst"])
-    return nx is not None and idxs[0] < nx <= idxs[-1] + 1
+    mi = dict((k, v) for k, v in st["match"]).get(case["dst"])        # a leader holds both dict entries for a destination
+    return nx is not None and mi is not None and idxs[0] < nx <= idxs[-1] + 1
 
 
 def monitors(env, case, real):
@@ -350,8 +352,14 @@ def monitors(env, case, real):
             v.append({"signature": SIG_CHUNK, "what": "burst of entry %s never finished" % burst[0]})
         nx = dict((k, v2) for k, v2 in st["next"])[case["dst"]]
         want = [e[1] for e in st["log"] if e[1] >= nx]
-        if carried != want:
-            v.append({"signature": SIG_PART, "what": "entries carried %s, log suffix %s" % (carried[:20], want[:20])})
+        mi = dict((k, v2) for k, v2 in st["match"]).get(case["dst"])
+        confirmed = mi is not None and mi >= nx - 1
+        # C11: what one run carries is a gap-free, duplicate-free prefix of the log suffix from nextIndex (the rest
+        # follows in later runs); non-empty when there is something to send; the whole suffix when the destination
+        # has confirmed the entry before it (repair D62 sends one batch to a destination that has not)
+        if carried != want[:len(carried)] or (want and not carried) or (confirmed and carried != want):
+            v.append({"signature": SIG_PART, "what": "entries carried %s, log suffix %s, matchIndex %s nextIndex %s"
+                                                     % (carried[:20], want[:20], mi, nx)})
     if op == "check":
         pre = [tuple(e[0]) for e in st["log"]]
         post = [tuple(e[0]) for e in real["state"]["log"]]
@@ -412,11 +420,16 @@ class Gen(object):
         return out
 
     # ---------------------------------------------------------------- send
-    def send_case(self, B, log, nxt, snap=(), budget=None, drop=None, term=None, commit=None):
+    def send_case(self, B, log, nxt, snap=(), budget=None, drop=None, term=None, commit=None, match="confirmed"):
+        """match: "confirmed" = the destination has confirmed the entry before nextIndex (pipelined run);
+        an int = that matchIndex; None = no matchIndex key for the destination"""
         last = log[-1][1] if log else 0
+        if match == "confirmed":
+            match = max(nxt - 1, 0)
         st = blank_state(role=2, leader=0, term=term if term is not None else (max([e[2] for e in log] + [1])),
                          log=log, commit=commit if commit is not None else (log[0][1] if log else 1),
-                         members=[1], connected=[1], next=[[1, nxt]], match=[[1, 0]], noop=last)
+                         members=[1], connected=[1], next=[[1, nxt]], match=([] if match is None else [[1, match]]),
+                         noop=last)
         return {"op": "send", "conf": conf(batch=B), "state": st, "dst": 1, "snap": list(snap), "budget": budget, "drop": drop}
 
     def sys_send(self, tier_scale):
@@ -456,6 +469,19 @@ class Gen(object):
                             if budget is not None and drop is not None:
                                 continue
                             cases.append(self.send_case(100, log, nxt, snap, budget, drop))
+        # repair D62: matchIndex against prevLogIdx = nextIndex - 1 (probe with one batch unless confirmed)
+        for first in (1, 5):
+            log = self.log(first, [3, 40, 120, 7, 99, 100, 101, 5])
+            last = log[-1][1]
+            for nxt in (first, first + 1, first + 2, last, last + 1, last + 2, last + 7):
+                for m in (nxt - 2, nxt - 1, nxt, 0, None):
+                    if m is not None and m < 0:
+                        continue
+                    for snap in ((), (True,), (False, True)):
+                        if nxt > first and snap:
+                            continue
+                        for budget, drop in ((None, None), (1, None), (None, 1), (None, 2)):
+                            cases.append(self.send_case(100, log, nxt, snap, budget, drop, match=m))
         # partial operations: empty log, one-entry log with a final snapshot chunk, holes (malformed stream)
         cases.append(self.send_case(100, [], 1))
         one = self.log(1, [1])
@@ -489,7 +515,8 @@ class Gen(object):
             snap = r.choice([(), (None,), (True,), (False, True), (False, False, False, True), (False, None)])
         budget = r.choice([None, None, None, 1, 2, 3, 5])
         drop = r.choice([None, None, None, 1, 2, 3, 6]) if budget is None else None
-        return self.send_case(B, log, nxt, snap, budget, drop, commit=r.randint(first, last))
+        m = r.choice(["confirmed", "confirmed", "confirmed", max(nxt - 2, 0), nxt, 0, last, None if r.random() < 0.2 else 0])
+        return self.send_case(B, log, nxt, snap, budget, drop, commit=r.randint(first, last), match=m)
 
     # ---------------------------------------------------------------- sendall
     def sys_sendall(self):
@@ -502,7 +529,7 @@ class Gen(object):
                 ([1, 2], [], [1, 2], [[1, 2]], None),            # KeyError: no nextIndex for a connected member
                 ([], [], [], [], None)):
             st = blank_state(role=2, leader=0, term=2, log=log, commit=1, members=members, readonly=ro, connected=conn,
-                             next=nx, match=[[d, 0] for d, _ in nx], noop=5)
+                             next=nx, match=[[d, (n - 1 if d != 2 else 0)] for d, n in nx], noop=5)
             cases.append({"op": "sendall", "conf": conf(batch=100), "state": st, "budget": budget})
         return cases
 
@@ -523,7 +550,8 @@ class Gen(object):
         if r.random() < 0.08 and nx:
             nx.pop()                      # KeyError path (malformed stream)
         st = blank_state(role=2, leader=0, term=2, log=log, commit=first, members=members, readonly=sorted(set(ro)),
-                         connected=sorted(set(conn)), next=nx, match=[[d, 0] for d, _ in nx], noop=last)
+                         connected=sorted(set(conn)), next=nx,
+                         match=[[d, r.choice([n - 1, n - 1, 0, n, max(n - 2, 0)])] for d, n in nx], noop=last)
         return {"op": "sendall", "conf": conf(batch=B), "state": st, "budget": None if ro else r.choice([None, None, 1, 2, 4])}
 
     # ---------------------------------------------------------------- queue
@@ -562,7 +590,8 @@ class Gen(object):
         last = log[-1][1] if log else 0
         conn = connected if connected is not None else list(members)
         st = blank_state(self=self_id, role=role, leader=leader, term=3, log=log, commit=la, lastApplied=la, members=members,
-                         connected=conn, next=[[d, last + 1] for d in members], match=[[d, 0] for d in members],
+                         connected=conn, next=[[d, last + 1] for d in members],
+                         match=[[d, (last if d % 2 else 0)] for d in members],
                          queue=queue, noop=noop, change=change, counter=self.rng.randint(0, 5),
                          waitCommit=[[2, 1, 900]] if self.rng.random() < 0.3 else [],
                          waitReply=[[1, 901]] if self.rng.random() < 0.3 else [])
@@ -796,6 +825,20 @@ def classify(case, real, model):
             tags.append("send:budget")
         if case.get("drop") is not None:
             tags.append("send:drop")
+        nxs = dict((k, v) for k, v in case["state"]["next"]).get(case["dst"])
+        mi = dict((k, v) for k, v in case["state"]["match"]).get(case["dst"])
+        reg = [b for b in model.get("batches", []) if b != "snapshot"]
+        if reg:
+            if mi is None:
+                tags.append("probe:no-matchindex-key")
+            elif mi < nxs - 1 and not any(b == "snapshot" for b in model.get("batches", [])):
+                tags.append("probe:unconfirmed")
+            elif mi == nxs - 1:
+                tags.append("probe:confirmed-exactly")
+            elif mi > nxs - 1:
+                tags.append("probe:confirmed-beyond")
+            if len(reg) > 1:
+                tags.append("send:pipelined")
         for m in model.get("msgs", []):
             if m["t"] == "chunk":
                 tags.append("chunk:" + m["label"])
@@ -832,7 +875,7 @@ def classify(case, real, model):
     return tags
 
 
-FLOORS = ["op:send", "op:sendall", "op:check", "op:submit", "op:recv_apply", "op:recv_response", "op:leader_changed",
+FLOORS = ["probe:unconfirmed", "probe:confirmed-exactly", "probe:confirmed-beyond", "send:pipelined", "op:send", "op:sendall", "op:check", "op:submit", "op:recv_apply", "op:recv_response", "op:leader_changed",
           "op:fappend", "op:restore", "op:reapply", "batch:regular", "batch:chunked", "batch:heartbeat", "batch:snapshot",
           "chunk:start", "chunk:process", "chunk:finish", "send:spin", "send:budget", "send:drop",
           "dispatch:appendLocal", "dispatch:appendRemote", "dispatch:denied", "dispatch:forward", "dispatch:notLeader",
